@@ -9,9 +9,20 @@ import (
 	"strings"
 	"time"
 
+	"os/exec"
+
+	"github.com/wrgl/wrgl/pkg/verifrt"
+
 	"verif/checks"
 	"verif/mc"
 )
+
+func myVariant() string {
+	if verifrt.Variant == "plain" {
+		return ""
+	}
+	return verifrt.Variant
+}
 
 func usage() {
 	fmt.Fprintln(os.Stderr, "usage: vcheck run <Cxx> <quick|thorough> <root> [variant] | worker … | replay <file> | list")
@@ -65,11 +76,21 @@ func main() {
 			fmt.Fprintln(os.Stderr, "unknown check", os.Args[2])
 			os.Exit(2)
 		}
-		variant := ""
-		if len(os.Args) > 5 {
-			variant = os.Args[5]
+		os.Exit(mc.Drive(c, os.Args[3], os.Args[4], myVariant()))
+	case "inproc":
+		a := os.Args[2:]
+		if len(a) < 4 {
+			usage()
 		}
-		os.Exit(mc.Drive(c, os.Args[3], os.Args[4], variant))
+		c := find(a[0])
+		if c == nil {
+			os.Exit(3)
+		}
+		h := findHarness(c, a[1])
+		if h == nil || h.InProc == nil {
+			os.Exit(3)
+		}
+		mc.RunInProc(c, h, a[2], a[3])
 	case "worker":
 		// worker <id> <harness> <tier> <shard> <of> <out> <deadline-unix> <limit> <skip>
 		a := os.Args[2:]
@@ -134,6 +155,17 @@ func main() {
 		h := findHarness(c, v.Harness)
 		if h == nil {
 			os.Exit(2)
+		}
+		if h.Variant != myVariant() {
+			cmd := exec.Command(mc.ExeFor(h.Variant), os.Args[1:]...)
+			cmd.Stdout, cmd.Stderr = os.Stdout, os.Stderr
+			if err := cmd.Run(); err != nil {
+				if ee, ok := err.(*exec.ExitError); ok {
+					os.Exit(ee.ExitCode())
+				}
+				os.Exit(2)
+			}
+			return
 		}
 		quiet := os.Getenv("VERIF_QUIET") != ""
 		if h.InProc != nil {
